@@ -6,6 +6,7 @@ print_schema alone would miss).  The .graphql/.gql target is parsed back the sam
 """
 from __future__ import annotations
 
+import os
 import importlib.util
 import json
 import random
@@ -256,6 +257,30 @@ def worker(case: Dict[str, Any]) -> CaseResult:
                     g = run_cli(root, "graphqlschema", cfg)
             finally:
                 schema_mod.httpx.post = saved_post
+        elif case["idx"] % 10 == 7 and not case.get("corpus"):
+            # the process's default text encoding is not an input either: the schema file is pure ASCII (non-ASCII characters of descriptions, reasons and defaults are
+            # written as \uXXXX escapes, which regular strings allow) and the generator runs in its own interpreter under the C locale with UTF-8 mode off
+            import re as _re
+            import subprocess
+            from types import SimpleNamespace
+            parts = _re.split(r'("""(?:.|\n)*?""")', sdl)
+            if all(p_.isascii() for p_ in parts[1::2]):
+                ascii_sdl = "".join(p_ if k_ % 2 else "".join(c_ if ord(c_) < 128 else "\\u%04x" % ord(c_) for c_ in p_) for k_, p_ in enumerate(parts))
+                cfg = write_case(root, ascii_sdl, None, cfg_full)
+                cfg.pop("include_comments", None)
+                env = dict(os.environ, LC_ALL="C", LANG="C", PYTHONUTF8="0", PYTHONCOERCECLOCALE="0", PYTHONPATH=str(core.REPO))
+                pr = subprocess.run(["/venv/bin/python", "-X", "utf8=0", "-m", "ariadne_codegen", "graphqlschema"], cwd=str(root), env=env, capture_output=True, timeout=170)
+                err = pr.stderr.decode("utf-8", "replace")
+                last = err.strip().splitlines()[-1] if err.strip() else ""
+                g = SimpleNamespace(ok=pr.returncode == 0, exc_type=last.split(":")[0] if last else "exit %d" % pr.returncode, exception=last, traceback=err[-1500:])
+                feats.add("env.ascii_locale")
+                fl = sorted(feats)
+            else:
+                cfg = write_case(root, sdl, None, cfg_full)
+                cfg.pop("include_comments", None)
+                with warnings.catch_warnings():
+                    warnings.simplefilter("ignore")
+                    g = run_cli(root, "graphqlschema", cfg)
         else:
             cfg = write_case(root, sdl, None, cfg_full)
             cfg.pop("include_comments", None)
